@@ -5,6 +5,7 @@ package main
 import (
 	"fmt"
 	"go/types"
+	"os"
 	"strings"
 
 	"golang.org/x/tools/go/ssa"
@@ -200,6 +201,18 @@ func runC18(c *Ctx) {
 				}
 			}
 			okEl := actLoop != nil && el == token(actLoop)
+			if os.Getenv("UFCHECK_DEBUG_C18") != "" && actLoop != nil {
+				fmt.Println("R4 el   :", clip(u.Show(el), 700))
+				fmt.Println("R4 token:", clip(u.Show(token(actLoop)), 700))
+			}
+			if actLoop != nil && !okEl {
+				// the same selection, folded differently at the call site
+				tk := u.Specialize(token(actLoop), inLoop.Cond)
+				okEl = el == tk
+				if !okEl {
+					okEl, _ = semEqual(u, u.Specialize(el, inLoop.Cond), tk)
+				}
+			}
 			// the scans inside the tokenizer terminate: their control atoms are projected away
 			bodyCond := inLoop.Cond
 			for _, sub := range g.Subs {
@@ -378,6 +391,20 @@ func runC18(c *Ctx) {
 				scans = append(scans, scan{li.L, ct, li.Act})
 			}
 		}
+		libraryForm := len(scans) == 0
+		if libraryForm {
+			var rem0 *E
+			if byPointer {
+				for _, ef := range s.Effects {
+					if ef.Kind == "store" && ef.Addr == p {
+						rem0 = ef.Val
+					}
+				}
+			} else if tok.Signature.Results().Len() == 2 {
+				rem0 = g.RetExpr(s, 1)
+			}
+			checkLibraryTokenizer(c, u, tok, str, g.RetExpr(s, 0), rem0)
+		}
 		blank := func(b int64) bool { return b == ' ' || b == '\t' }
 		// order the scans by their init chain
 		byIdx := map[*E]scan{}
@@ -422,7 +449,7 @@ func runC18(c *Ctx) {
 			trimIdiom = true
 			nScansNeeded = 2
 		}
-		if len(chain) < nScansNeeded {
+		if len(chain) < nScansNeeded && !libraryForm {
 			c.Fail("C18.R2", shortFn(tok)+": scans", tok.Pos(), fmt.Sprintf("UNDECIDED: expected %d chained counted scans starting at 0, found %d", nScansNeeded, len(chain)))
 		}
 		for i, sc := range chain {
@@ -464,7 +491,7 @@ func runC18(c *Ctx) {
 			}
 			c.Check(bad == "", "C18.R2", key, sc.l.Header.Instrs[0].Pos(), "stay-condition evaluated on all 256 byte values", bad)
 		}
-		if trimIdiom {
+		if trimIdiom && !libraryForm {
 			cut, _ := rem.Args[1].StrVal()
 			set := map[rune]bool{}
 			for _, r := range cut {
@@ -649,6 +676,10 @@ func tokenizerRole(p *Prog, nhr *ssa.Function) *ssa.Function {
 		if nLoops >= 2 {
 			tok = cal
 		}
+		// the same three scans written with the standard library: TrimLeft, IndexAny, TrimLeft
+		if nLoops == 0 && len(callsByName(p, cal, "strings.TrimLeft")) >= 1 && len(callsByName(p, cal, "strings.IndexAny"))+len(callsByName(p, cal, "strings.IndexFunc")) >= 1 {
+			tok = cal
+		}
 	})
 	return tok
 }
@@ -669,4 +700,116 @@ func tokScanned(sub *Summary) *E {
 		}
 	}
 	return nil
+}
+
+// callsByName: the static calls of a function with the given name in fn and its helper group.
+func callsByName(p *Prog, fn *ssa.Function, name string) []ssa.Instruction {
+	var out []ssa.Instruction
+	eachInstrG(p, fn, func(_ *ssa.BasicBlock, in ssa.Instruction) {
+		if ci, ok := in.(ssa.CallInstruction); ok {
+			if cal := ci.Common().StaticCallee(); cal != nil && calleeName(cal) == name {
+				out = append(out, in)
+			}
+		}
+	})
+	return out
+}
+
+// checkLibraryTokenizer is C18.R2/R3 for a tokenizer written with the standard library:
+//
+//	t := strings.TrimLeft(s, blanks); end := strings.IndexAny(t, blanks)
+//	end < 0: token = t, remainder = ""        else: token = t[:end], remainder = strings.TrimLeft(t[end:], blanks)
+//
+// R2: the three constant sets are exactly {space, tab}.  R3: token and remainder have that form.
+func checkLibraryTokenizer(c *Ctx, u *U, tok *ssa.Function, str, res, rem *E) {
+	blanks := func(e *E) (string, bool) {
+		sv, ok := e.StrVal()
+		if !ok {
+			return "", false
+		}
+		set := map[rune]bool{}
+		for _, r := range sv {
+			set[r] = true
+		}
+		return sv, len(set) == 2 && set[' '] && set['\t']
+	}
+	isCall := func(e *E, name string) bool { return e != nil && e.Op == "call" && e.Aux == name && len(e.Args) == 2 }
+	// the trimmed text and the end-of-token search
+	var T, end *E
+	for _, root := range []*E{res, rem} {
+		if root == nil {
+			continue
+		}
+		for _, x := range u.Collect(root, func(x *E) bool { return isCall(x, "strings.TrimLeft") && x.Args[0] == str }) {
+			T = x
+		}
+	}
+	if T != nil {
+		for _, root := range []*E{res, rem} {
+			if root == nil {
+				continue
+			}
+			for _, x := range u.Collect(root, func(x *E) bool { return isCall(x, "strings.IndexAny") && x.Args[0] == T }) {
+				end = x
+			}
+			for _, lc := range u.Leaves(root) {
+				for _, at := range u.AtomsOf(lc) {
+					for _, x := range u.Collect(at, func(x *E) bool { return isCall(x, "strings.IndexAny") && x.Args[0] == T }) {
+						end = x
+					}
+				}
+			}
+		}
+	}
+	names := []string{"skip leading blanks", "take the token", "skip blanks after the token"}
+	key := func(i int) string {
+		return fmt.Sprintf("%s: scan %d (%s) agrees with the blank set", shortFn(tok), i+1, names[i])
+	}
+	if T == nil || end == nil {
+		c.Fail("C18.R2", shortFn(tok)+": scans", tok.Pos(), "UNDECIDED: neither three counted scans nor strings.TrimLeft(s, set) followed by strings.IndexAny(trimmed, set)")
+		return
+	}
+	cs1, ok1 := blanks(T.Args[1])
+	c.Check(ok1, "C18.R2", key(0), tok.Pos(), "TrimLeft cutset is exactly {space, tab}", fmt.Sprintf("leading blanks are trimmed with the set %q, documented {space, tab}", cs1))
+	cs2, ok2 := blanks(end.Args[1])
+	c.Check(ok2, "C18.R2", key(1), tok.Pos(), "IndexAny set is exactly {space, tab}", fmt.Sprintf("the token ends at the first character of %q, documented {space, tab}: e.g. a tab before the comment sign leaves an empty name or turns the line into a network rule", cs2))
+	notFound := u.ToBool(u.Lt(end, u.Int(0)))
+	// token
+	okTok := res != nil
+	if res != nil {
+		for leaf, lc := range u.Leaves(res) {
+			switch {
+			case lc == False:
+			case leaf == T:
+				okTok = okTok && u.bdd.Implies(lc, notFound)
+			case leaf.Op == "slice" && leaf.Args[0] == T && (leaf.Args[1] == nil || isIntConst(leaf.Args[1], 0)) && leaf.Args[2] == end:
+				okTok = okTok && u.bdd.Implies(lc, u.bdd.Not(notFound))
+			default:
+				okTok = false
+			}
+		}
+	}
+	c.Check(okTok, "C18.R3", shortFn(tok)+": token = s[end of blanks : end of non-blanks]", tok.Pos(), "trimmed[:IndexAny(trimmed, blanks)], or all of it when no blank follows", "the returned token is "+clip(u.Show(res), 120))
+	// remainder
+	okRem := rem != nil
+	var cs3 string
+	ok3 := false
+	if rem != nil {
+		for leaf, lc := range u.Leaves(rem) {
+			sv, isS := leaf.StrVal()
+			switch {
+			case lc == False:
+			case isS && sv == "":
+				okRem = okRem && u.bdd.Implies(lc, notFound)
+			case isCall(leaf, "strings.TrimLeft") && leaf.Args[0].Op == "slice" && leaf.Args[0].Args[0] == T && leaf.Args[0].Args[1] == end && leaf.Args[0].Args[2] == nil:
+				okRem = okRem && u.bdd.Implies(lc, u.bdd.Not(notFound))
+				cs3, ok3 = blanks(leaf.Args[1])
+			default:
+				okRem = false
+			}
+		}
+	}
+	c.Check(ok3, "C18.R2", key(2), tok.Pos(), "TrimLeft cutset is exactly {space, tab}",
+		fmt.Sprintf("the blanks after a token are trimmed with cutset %q, but the other scans treat {space, tab} as blank: a tab after the last name leaves an empty name", cs3))
+	c.Check(okRem, "C18.R3", shortFn(tok)+": remainder = s[end of the following blanks:]", tok.Pos(), "TrimLeft(trimmed[end:], blanks), or empty when no blank follows", "the remainder is "+clip(u.Show(rem), 120))
 }
